@@ -96,19 +96,31 @@ class Scenario:
                 elif kind == "suspend":
                     out.append((kind, lambda: self.request("suspend", self.do_suspend)))
                 elif kind in ("abort", "stop", "halt"):
-                    out.append((kind, lambda kind=kind: self.request(kind, lambda: call_method(I, re, kind))))
+                    out.append((kind, lambda kind=kind: self.request(kind, lambda: call_method(I, re, kind, *(("because",) if kind == "abort" else ())))))
+        # completions arrive from other threads / the loop's timer heap: a callback is queued (call_soon_threadsafe), the
+        # future completes when that callback runs
         for f in self.devfuts:
-            if not f.done():
+            if not f.done() and not getattr(f, "fired", False):
                 out.append((f"dev-ok", lambda f=f: self.complete(f, True)))
                 out.append((f"dev-fail", lambda f=f: self.complete(f, False)))
                 break          # device futures complete in order of creation (one device)
         for t in self.loop.timers:
-            if not t.done():
-                out.append(("timer", lambda t=t: t.set_result(None)))
+            if not t.done() and not getattr(t, "fired", False):
+                out.append(("timer", lambda t=t: self.fire(t)))
                 break
-        if self.release is not None and not self.release.value:
-            out.append(("release", lambda: (self.eng.event("release"), self.release.set())))
+        if self.release is not None and not self.release.value and not getattr(self.release, "fired", False):
+            out.append(("release", self.do_release))
         return out
+
+    def fire(self, t):
+        t.fired = True
+        self.loop.call_soon(lambda: None if t.done() else t.set_result(None), label="timer")
+
+    def do_release(self):
+        r = self.release
+        r.fired = True
+        self.eng.event("release")
+        self.loop.call_soon(r.set, label="release")
 
     def request(self, kind, act):
         self.requests.append(kind)
@@ -127,14 +139,15 @@ class Scenario:
 
     def complete(self, f, ok):
         w = self.w
+        f.fired = True
         if ok:
             v = token(w, "resp")
             self.eng.event("dev-complete", f, v)
-            f.set_result(v)
+            self.loop.call_soon(lambda: None if f.done() else f.set_result(v), label="dev-complete")
         else:
             e = Obj(BUILTIN_CLASSES["ValueError"], {"args": ("device error",), "__cause__": None}, label=w.fresh("dev_error"))
             self.eng.event("dev-fail", f, e)
-            f.set_exception(e)
+            self.loop.call_soon(lambda: None if f.done() else f.set_exception(e), label="dev-fail")
 
     # ------------------------------------------------------------------ main thread
     def run(self, on_return=None):
@@ -150,7 +163,7 @@ class Scenario:
             if d != "resume":
                 self.requests.append(d)
                 eng.event("request", d, "paused")
-            r = eng.call(d)
+            r = eng.call(d, *(("because",) if d == "abort" else ()))
             calls.append((d, r))
             if on_return:
                 on_return(d, r)
